@@ -215,7 +215,12 @@ def verify_delegation(
     # delegation_name.
     checkformat_signable(untrusted_delegated_metadata)
     try:
-        checkformat_delegating_metadata(untrusted_delegated_metadata)
+        # Only the signed portion decides this: the signatures dictionary is
+        # under attacker control, and a malformed entry in it (ignored later by
+        # verify_signable) must not be able to switch the type check off.
+        checkformat_delegating_metadata(
+            {"signatures": {}, "signed": untrusted_delegated_metadata["signed"]}
+        )
     except (ValueError, TypeError):
         # If we can't verify that we're verifying more delegating metadata
         # (e.g. we're using root to verify key_mgr), then we don't need to
